@@ -12,7 +12,7 @@ def _run(c, name, n, seed=None, corr=CORR):
     if c.replay and seed is None:
         args = ["run", "-replay", c.replay]
     env = {"VERIF_SEED": str(seed)} if seed is not None else None
-    out = c.harness("call", args, env=env, timeout=900)
+    out = c.harness("call", args, env=env, timeout=400 if c.tier == "quick" else 1500)
     if not out:
         return
     c.cases(name, out, IMPORTS, "ccase", corr=list(corr), spec=SPEC, premise=["premise_ok"])
